@@ -188,6 +188,11 @@ pub fn stress_shapes(ctx: &mut Ctx, reps: u64) {
         run_plain(ctx, &h);
         ctx.count("many-peers-histories");
     }
+    for _ in 0..(reps / 32).max(1) {
+        let h = gen_many_transactions(&mut rng);
+        run_plain(ctx, &h);
+        ctx.count("many-transactions-histories");
+    }
 }
 
 /// (7) the schedule is extended after its last transmission went out (and again later): the later
@@ -231,6 +236,27 @@ pub fn gen_staggered_service(rng: &mut crate::prng::Rng) -> History {
         ops.push(Op::Poll(PollAt::AtWait));
     }
     History { tcp: false, remote0: None, remote_addr: None, ops }
+}
+
+/// (10) many concurrent transactions: 20..=1500 requests started at one instant (ids beyond the core
+///      eight), polled through their whole schedules; a few core transactions run alongside
+pub fn gen_many_transactions(rng: &mut crate::prng::Rng) -> History {
+    let count = *rng.pick(&[20usize, 33, 65, 129, 257, 500, 1025, 1500]);
+    let first = NTID + rng.usize(60_000 - count);
+    let mut ops = vec![req(0, 1, Sealing::None, 3)];
+    ops.push(Op::SendBurst { first: first as u16, count: count as u16 });
+    ops.push(req(1, 2, Sealing::None, 4));
+    if rng.chance(1, 2) {
+        // short schedules keep the history small: every transaction of the burst keeps the default one,
+        // the core ones are reconfigured
+        ops.push(Op::Configure { tid: 0, rto: 100, n: 2, last: 50, rto_us: 0, last_us: 0 });
+    }
+    // serve the first wave partly with polls at different instants, then let the drain finish
+    for _ in 0..(count / 4 + 8) {
+        ops.push(Op::Poll(*rng.pick(&[PollAt::AtWait, PollAt::AtWait, PollAt::Now, PollAt::After(1)])));
+    }
+    ops.push(Op::Response { tid: 1, from: 2, error: false, seal: RespSeal::Unsigned, fp: false });
+    History { tcp: rng.chance(1, 5), remote0: None, remote_addr: None, ops }
 }
 
 /// (9) many distinct peers: messages accepted from 70..=240 different source addresses; every one
@@ -538,6 +564,7 @@ pub fn run_c20(ctx: &mut Ctx) {
     let nshape = ctx.n(640, 6_400);
     for i in 0..nshape {
         let h = match i % 8 {
+            0 if i % 64 == 0 => gen_many_transactions(&mut rng),
             0 => gen_many_peers(&mut rng),
             1 | 2 => gen_extended_schedule(&mut rng),
             _ => gen_staggered_service(&mut rng),
